@@ -131,6 +131,7 @@ func factsClient(p *pkg, o *out) {
 		sort.Strings(api)
 		o.strListDef("exportedReachingRaw", api, true)
 	}
+	o.shapeDef(p, "Conn", "rateLimit")
 	o.shapeDef(p, "Conn", "Raw")
 	o.shapeDef(p, "Conn", "write")
 	for _, m := range []string{"Pass", "Nick", "User", "Join", "Part", "Kick", "Quit", "Whois", "Who", "Privmsg", "Privmsgln", "Privmsgf",
